@@ -133,13 +133,13 @@ def rule_multibyte(facts):
     gsm, _tmm = pat.guards(b)
     for (bbm, tmt, zm, nzm) in gsm:
         sm = pat.cmp_sides(tmt)
-        if not (sm and sm[0] == "Lt" and sm[2][0] == "const" and sm[1][0] == "phi" and c.loop_blocks_of(bbm)):
+        if not (sm and sm[0] in ("Lt", "Le") and sm[2][0] == "const" and sm[1][0] == "phi" and c.loop_blocks_of(bbm)):
             continue
         alts = sm[1][1] if (len(sm[1]) == 2 and isinstance(sm[1][1], tuple) and sm[1][1] and not isinstance(sm[1][1][0], str)) else ()
         init = [a for a in alts if a[0] == "const"]
         step = [a for a in alts if a[0] == "Add" and len(a) > 2 and a[2][0] == "const" and a[1][0] in ("loopvar", "phi")]
         if len(init) == 1 and len(step) == 1 and step[0][2][1] > 0:
-            ind = (init[0][1], step[0][2][1], sm[2][1])
+            ind = (init[0][1], step[0][2][1], sm[2][1] + (1 if sm[0] == "Le" else 0))
     trips = None
     if not rng and ind is not None:
         trips = max(0, -(-(ind[2] - ind[0]) // ind[1]))
